@@ -1996,15 +1996,29 @@ func (f *formatter) ScalarEncapsedStringBrackets(n *ast.ScalarEncapsedStringBrac
 }
 
 func (f *formatter) ScalarHeredoc(n *ast.ScalarHeredoc) {
-	openTkn := []byte("<<<EOT\n")
+	label := heredocLabel(n.Parts)
+	openTkn := []byte("<<<" + label + "\n")
 	if n.OpenHeredocTkn != nil && bytes.IndexByte(n.OpenHeredocTkn.Value, '\'') >= 0 {
-		openTkn = []byte("<<<'EOT'\n") // a nowdoc stays a nowdoc: its body is not interpolated
+		openTkn = []byte("<<<'" + label + "'\n") // a nowdoc stays a nowdoc: its body is not interpolated
 	}
 	n.OpenHeredocTkn = f.newToken(token.T_START_HEREDOC, openTkn)
 	for _, p := range n.Parts {
 		p.Accept(f)
 	}
-	n.CloseHeredocTkn = f.newToken(token.T_START_HEREDOC, []byte("EOT"))
+	n.CloseHeredocTkn = f.newToken(token.T_START_HEREDOC, []byte(label))
+}
+
+// heredocLabel returns EOT, extended with underscores until it does not occur
+// in the text of the body (a body line that starts with the label would close the heredoc)
+func heredocLabel(parts []ast.Vertex) string {
+	label := "EOT"
+	for i := 0; i < len(parts); i++ {
+		if p, ok := parts[i].(*ast.ScalarEncapsedStringPart); ok && bytes.Contains(p.Value, []byte(label)) {
+			label += "_"
+			i = -1
+		}
+	}
+	return label
 }
 
 func (f *formatter) ScalarLnumber(n *ast.ScalarLnumber) {
